@@ -434,6 +434,16 @@ theorem close_complete (deps : Nat → List Nat) (tasks U : List Nat) (hU : ∀ 
   | root hr => exact closeLoop_mono deps fuel _ _ _ (by simpa [List.mem_eraseDups] using hr)
   | step _ hd ih => exact close_closed deps tasks U hU fuel hf _ ih _ hd
 
+/-- the form the driver (and the correspondence) uses: task objects are numbered below `n`, `n + 1` rounds -/
+theorem close_complete_bounded (deps : Nat → List Nat) (n : Nat) (hdeps : ∀ t d, d ∈ deps t → d < n)
+    (tasks : List Nat) (ht : ∀ t ∈ tasks, t < n) (t : Nat) (h : Reach deps tasks t) :
+    t ∈ closeDeps deps (n + 1) tasks := by
+  apply close_complete deps tasks (List.range n) ?_ (n + 1) (by simp) t h
+  intro u hu
+  induction hu with
+  | root hr => exact List.mem_range.2 (ht _ hr)
+  | step _ hd _ => exact List.mem_range.2 (hdeps _ _ hd)
+
 /-- non-vacuity: two tasks that depend on each other (possible with `Task.add_dependency`); the pinned loop never
 ended on this input (defect A30), the repaired one collects both tasks in two rounds. -/
 def cyc2 : Nat → List Nat := fun t => if t = 0 then [1] else if t = 1 then [0] else []
